@@ -315,6 +315,8 @@ def run(facts, rep, ctx):
                     for f in fmts:
                         out[f]["message" if in_loop else "title"].add(c)
         return out
+    def encoders_in(body):
+        return any((c or "").startswith("mila::encoded_strings::to_") for c in callee_set(body, facts))
     w = per_format(ser, True)
     r = per_format(par, False)
     if w is None or r is None:
@@ -330,6 +332,10 @@ def run(facts, rep, ctx):
                 continue
             if (len(ws) != 1 and ser.name in indirect) or (len(rs) != 1 and par.name in indirect):
                 rep.inconc(R1, "%s: codec called through a pointer that is not resolved" % key)
+                continue
+            if (not ws and encoders_in(ser)) or (not rs and any("EncodedStringReader" in (c or "") or "encoded_strings::read_" in (c or "") for c in callee_set(par, facts))):
+                # the codec is reached some other way (merged / inlined writers): not "no codec"
+                rep.inconc(R1, "%s: the %s is not one of the recognised per-format helpers" % (key, "writer" if not ws else "reader"))
                 continue
             if len(ws) != 1 or len(rs) != 1:
                 rep.violation(R1, ser.name if len(ws) != 1 else par.name, "pairing:" + key, "%s: writer uses %s, reader uses %s" % (key, sorted(ws) or "nothing", sorted(rs) or "nothing"), "%s:%s" % (ser.file, ser.line))
@@ -350,13 +356,18 @@ def run(facts, rep, ctx):
                 continue
             if wc["encoding"] != rc["encoding"]:
                 rep.violation(R1, par.name, "encoding:" + key, "%s is written as %s (%s) but read as %s (%s)" % (key, wc["encoding"], wn.rsplit("::", 1)[-1], rc["encoding"], rn.rsplit("::", 1)[-1]), "%s:%s" % (par.file, par.line))
+            elif not rc["terminator"] or not rc["reads_per_unit"]:
+                rep.inconc(R1, "%s: how the reader %s detects the terminator was not recognised (%s zero test(s), %s read(s) per unit)" % (
+                    key, rn.rsplit("::", 1)[-1], rc["terminator"], rc["reads_per_unit"]))
             elif wc["terminator"] != rc["terminator"] or (rc["reads_per_unit"] and rc["terminator"] != rc["reads_per_unit"]):
                 rep.violation(R1, par.name, "terminator:" + key, "%s: writer appends %s zero byte(s), reader stops on %s zero byte(s) of %s read per unit" % (key, wc["terminator"], rc["terminator"], rc["reads_per_unit"]), "%s:%s" % (par.file, par.line))
             else:
                 rep.ok(R1, {"format": f, "role": role, "encoding": wc["encoding"], "terminator": wc["terminator"]})
     # the Unicode format has a title, the legacy one does not – on both sides
     for f in fv.values():
-        if bool(w[f]["title"]) != bool(r[f]["title"]):
+        if bool(w[f]["title"]) != bool(r[f]["title"]) and not any(w[g][role_] for g in fv.values() for role_ in ("title", "message")):
+            rep.inconc(R1, "format %s: title handling of the writer not recognised" % f)
+        elif bool(w[f]["title"]) != bool(r[f]["title"]):
             rep.violation(R1, par.name, "title:" + f, "format %s: title written: %s, title read: %s" % (f, bool(w[f]["title"]), bool(r[f]["title"])), "%s:%s" % (par.file, par.line))
     # ---- R06.2 padding ------------------------------------------------------------------------
     for wn, wc in sorted(wchar.items()):
